@@ -102,7 +102,9 @@ def exact_residual(case, rec, newton_tol=1e-8):
         F = np.concatenate([x - proj, y - (yh + t["dt"] * c)])
         nrm = float(np.linalg.norm(F))
         scale = 1.0 + float(np.linalg.norm(np.concatenate([xh, yh, t["dt"] * gl])))
-        if nrm > newton_tol * 1.001 + 1e-13 * scale:
+        # the code tested the residual in its working precision; this one is recomputed in binary64
+        unit = 1e-13 if case["cfg"].get("precision") != "Single" else 5e-7
+        if nrm > newton_tol * 1.001 + unit * scale:
             return "C15:exact_accept: trial %d accepted with implicit-Euler residual %.3e > newton_tol" % (k, nrm)
         if np.any(x < lb) or np.any(x > ub):
             return "C15:accepted_in_box: accepted step %d left the box" % k
@@ -181,6 +183,29 @@ def run_default_start(rep, tier, seed):
         msg = C.oracle_C05(case, rec)
         results.append((case, keyof(msg), msg, "default_start/%s" % (rec.get("status") or rec.get("kind"))))
     report(rep, "C05", "default_start", results)
+
+
+def run_input_forms(rep, tier, seed):
+    """C06 on the forms of input the interface accepts besides the canonical one: enum options given by member name,
+    a scalar y0.  The solve must end the way the canonical form does (same status, same point, same trial steps)."""
+    g = Gen(seed + 77)
+    results = []
+    for k in range(32 if tier == "thorough" else 8):
+        case = C.gen_case(g, "convex_qp", {"iteration_limit": 25})
+        spec = Spec.from_json(case["spec"])
+        case["y0"] = [g.rng.choice([0.0, 0.5, -1.0])] * spec.m
+        ref = C.run(case)
+        for forms in ({"enum_names": True}, {"y0_scalar": True}):
+            c2 = copy_case(case)
+            c2["forms"] = forms
+            rec = C.run(c2)
+            msg = C.oracle_C06(c2, rec)
+            if msg is None and ref.get("kind") == "status":
+                d = C.same_run(ref, rec)
+                if d:
+                    msg = "forms: %s given in another accepted form changes the solve: %s" % (sorted(forms)[0], d)
+            results.append((c2, keyof(msg), msg, "forms/%s/%s" % (sorted(forms)[0], rec.get("status") or rec.get("kind"))))
+    report(rep, "C06", "input_forms", results)
 
 
 def run_integration(rep, tier, seed):
